@@ -727,3 +727,4 @@ def run_fmt(ctx):
             "cumulative_seconds": timing,
         },
     }
+INTEGRATED = True   # set by the lead: the slice is finished and accepted
